@@ -67,6 +67,9 @@ func randCfg(r *vhlib.Rand, i int) caseCfg {
 		over := len(probe) - 100 - 3
 		cfg.nameLen = 2*16384 - over - 5
 	}
+	if cfg.magnet && cfg.nameLen < 16384 && r.Chance(50) {
+		cfg.nameLen = r.PickInt(20000, 33000, 16384*2-77, 40000)
+	}
 	cfg.wcap = r.PickInt(64, 64, 64, 8, 2)
 	cfg.evcap = r.PickInt(512, 512, 512, 1, 2)
 	cfg.port = r.PickInt(6881, 6881, 0)
@@ -271,6 +274,26 @@ func (w *world) genMsg(r *vhlib.Rand) protocol.Message {
 			c = st.Queue[r.Intn(len(st.Queue))]
 		}
 		i, b, data := w.chunkData(c)
+		if r.Chance(18) {
+			// other (index, begin) pairs that the block arithmetic maps to a block we asked
+			// for: the previous piece with an offset beyond its end, or (block 0) an index
+			// so large that index*blocksPerPiece overflows
+			cpp := w.cfg.ps / CS
+			switch {
+			case c == 0 && cpp >= 2 && r.Bool():
+				q := uint32((uint64(1)<<32 + uint64(cpp) - 1) / uint64(cpp))
+				ix := q + uint32(r.Intn(1<<20))
+				if r.Chance(30) {
+					ix = r.PickU32(1<<32-1, 1<<31, q, q+1)
+				}
+				if r.Bool() {
+					return protocol.Piece{Index: ix, Begin: 0, Data: r.Bytes(CS)}
+				}
+				return protocol.RejectRequest{Index: ix, Begin: 0, Length: CS}
+			case i >= 1:
+				return protocol.Piece{Index: i - 1, Begin: b + w.cfg.ps, Data: data}
+			}
+		}
 		switch r.Intn(10) {
 		case 0:
 			return protocol.RejectRequest{Index: i, Begin: b, Length: CS}
@@ -292,6 +315,12 @@ func (w *world) genMsg(r *vhlib.Rand) protocol.Message {
 			return protocol.RejectRequest{Index: i, Begin: b, Length: CS}
 		}
 		return protocol.Piece{Index: i, Begin: b, Data: data}
+	}
+	// targeted: a metadata download just failed (SHA-1 mismatch or rejected dictionary): the
+	// buffers are gone, votes remain; data messages for every block number with
+	// total_size absent / right / wrong, before the torrent asks again
+	if !w.t.InfoComplete() && w.t.VerifInfoState().InfoLen == 0 && len(w.t.VerifInfoState().Votes) > 0 && r.Chance(60) {
+		return w.metaAfterFailure(r)
 	}
 	// targeted: metadata for a magnet torrent
 	if !w.t.InfoComplete() && st.MetadataExt != 0 && r.Chance(45) {
@@ -421,7 +450,7 @@ func (w *world) genMsg(r *vhlib.Rand) protocol.Message {
 			m.Port = uint16(r.PickInt(6881, 6881, 1, 65535, 7000))
 		}
 		if r.Bool() {
-			m.ReqQ = r.PickU32(0, 1, 2, 3, 250, 1<<31, 1<<32-1)
+			m.ReqQ = r.PickU32(0, 1, 2, 3, 250, 1<<16, 1<<20, 1<<20, 1<<22, 1<<31, 1<<32-1)
 		}
 		real := uint32(len(w.info))
 		switch r.Intn(10) {
@@ -510,6 +539,40 @@ func (w *world) genMsg(r *vhlib.Rand) protocol.Message {
 	return protocol.Have{Index: uint32(r.Intn(w.cfg.np))}
 }
 
+// metaAfterFailure: a ut_metadata data message as a peer may send it right after a failed
+// round (it does not know that we threw the buffers away)
+func (w *world) metaAfterFailure(r *vhlib.Rand) protocol.Message {
+	chunks := (len(w.info) + CS - 1) / CS
+	real := uint32(len(w.info))
+	m := protocol.ExtendedMetadata{Subtype: 2, Type: 1}
+	m.Piece = uint32(r.Intn(chunks + 1))
+	if r.Chance(15) {
+		m.Piece = w.boundary(r)
+	}
+	m.TotalSize = r.PickU32(0, 0, real, real, real+1, real-1, 1)
+	switch r.Intn(4) {
+	case 0, 1:
+		m.Data = r.Bytes(CS)
+	case 2:
+		m.Data = r.Bytes(len(w.info) % CS)
+	default:
+		k := int(m.Piece)
+		if k < chunks {
+			e := (k + 1) * CS
+			if e > len(w.info) {
+				e = len(w.info)
+			}
+			m.Data = append([]byte(nil), w.info[k*CS:e]...)
+		} else {
+			m.Data = r.Bytes(CS)
+		}
+	}
+	if len(m.Data) == 0 {
+		m.Data = nil
+	}
+	return m
+}
+
 func opOfMsg(m protocol.Message) string {
 	switch m := m.(type) {
 	case nil:
@@ -534,6 +597,12 @@ func dangerous(m protocol.Message) (protocol.Message, bool) {
 	case protocol.Have:
 		if mm.Index >= 1<<24 {
 			return protocol.Have{Index: 1<<26 + mm.Index%(1<<18)}, true
+		}
+	case protocol.Extended0:
+		// a number the remote announces and the peer may later size something by
+		if mm.ReqQ >= 1<<24 {
+			mm.ReqQ = 1 << 22
+			return mm, true
 		}
 	case protocol.ExtendedMetadata:
 		// a metadata block number sizes the received-blocks bitmap if it is ever accepted;
@@ -576,11 +645,37 @@ func (w *world) probe(m protocol.Message, scaled protocol.Message) bool {
 	}
 	defer tw.close()
 	mm := scaled
+	tw.recOps = true
+	tw.quietViol = nil
 	tw.runPeer("msg", opOfMsg(scaled), wireSize(scaled), mm, func() error { return peer.VerifHandleMessage(tw.p, mm) })
 	res := tw.last
+	// exercise: what the remote announced may be used later, by the torrent's commands
+	if !tw.dead && tw.p.VerifState().HasInfo {
+		bs := make([]byte, (tw.cfg.np+7)/8)
+		for i := 0; i < tw.cfg.np; i++ {
+			bs[i/8] |= 1 << (7 - uint(i%8))
+		}
+		tw.sendMsg(protocol.Bitfield{Bitfield: bs})
+		if !tw.dead {
+			tw.sendMsg(protocol.Unchoke{})
+			tw.pumpPending()
+		}
+		if !tw.dead {
+			cs := []uint32{0, uint32(tw.nchunks() - 1), uint32(tw.nchunks() / 2)}
+			t := u32s(cs)
+			tw.emit("sched "+t[1:len(t)-1], "ok")
+			vhlib.Recover(func() { tor.VerifRequest(tw.t, tw.p, cs) })
+			tw.pumpPending()
+		}
+	}
 	runtime.GC()
 	name := strings.SplitN(opOfMsg(m), " ", 2)[0]
-	ops := append(w.c.Case(), "msg 00 0 "+opOfMsg(scaled))
+	ops := append(w.c.Case(), tw.rec...)
+	if len(tw.quietViol) > 0 {
+		v := tw.quietViol[0]
+		w.c.Violate(v[0], v[1]+fmt.Sprintf(" (found while exercising a twin after the scaled-down %s; the original %s is not executed)", clip(opOfMsg(scaled)), clip(opOfMsg(m))), ops)
+		return false
+	}
 	note := fmt.Sprintf(" (scaled-down probe of %s on a twin in the same state; the original is not executed)", clip(opOfMsg(m)))
 	switch {
 	case res.hung:
@@ -637,7 +732,11 @@ func (w *world) oracleOnly(m protocol.Message) {
 
 func (w *world) sendMsg(m protocol.Message) {
 	if sc, ok := dangerous(m); ok && !w.quiet {
-		if !w.probe(m, sc) {
+		if _, isExt0 := m.(protocol.Extended0); isExt0 && !w.p.VerifState().HasInfo {
+			// what the remote announces here is used only once the metadata is known: the
+			// twin cannot exercise it now, so the scaled-down value is what goes on
+			m = sc
+		} else if !w.probe(m, sc) {
 			return
 		}
 	}
@@ -763,7 +862,7 @@ func (w *world) prelude(r *vhlib.Rand) {
 	if w.dead {
 		return
 	}
-	switch r.Intn(10) {
+	switch r.Intn(11) {
 	case 0: // uploader: interested remote, unchoked by us
 		w.sendMsg(protocol.Interested{})
 		w.pumpPending()
@@ -898,6 +997,34 @@ func (w *world) prelude(r *vhlib.Rand) {
 				}
 			}
 		}
+	case 9: // magnet: a complete metadata round that ends badly (one corrupted block, or an
+		// authentic dictionary the parser rejects), immediately followed by more data
+		if !w.p.VerifState().HasInfo && !w.t.InfoComplete() {
+			m := protocol.Extended0{MetadataSize: uint32(len(w.info)), Messages: map[string]uint8{"ut_metadata": 2}}
+			w.sendMsg(m)
+			w.pumpPending()
+			chunks := (len(w.info) + CS - 1) / CS
+			bad := -1
+			if !w.cfg.badInfo || r.Chance(30) {
+				bad = r.Intn(chunks)
+			}
+			for k := 0; k < chunks && !w.dead && !w.t.InfoComplete(); k++ {
+				e := (k + 1) * CS
+				if e > len(w.info) {
+					e = len(w.info)
+				}
+				data := append([]byte(nil), w.info[k*CS:e]...)
+				if k == bad {
+					data[r.Intn(len(data))] ^= 0x40
+				}
+				w.sendMsg(protocol.ExtendedMetadata{Subtype: 2, Type: 1, Piece: uint32(k), TotalSize: uint32(len(w.info)), Data: data})
+				w.pumpPending()
+			}
+			for i, n := 0, 2+r.Intn(4); i < n && !w.dead && !w.t.InfoComplete(); i++ {
+				w.sendMsg(w.metaAfterFailure(r))
+				w.pumpPending()
+			}
+		}
 	case 3: // extension handshake first
 		m := protocol.Extended0{MetadataSize: uint32(len(w.info)), Port: 6881,
 			Messages: map[string]uint8{"ut_metadata": 2, "ut_pex": 1, "lt_donthave": 3}}
@@ -925,6 +1052,9 @@ func oneCase(c *vhlib.Ctx, cfg caseCfg, r *vhlib.Rand, script []string) {
 	if script != nil {
 		w.replayOps(script)
 	} else {
+		if cfg.e2e > 0 {
+			w.e2e(cfg.e2e)
+		}
 		w.prelude(sub(1))
 		if cfg.burst > 0 && !w.dead {
 			w.burst(sub(2), cfg.burst)
@@ -1058,6 +1188,12 @@ func generate(c *vhlib.Ctx) {
 			break
 		}
 		cfg := randCfg(r, i)
+		if i == 9 {
+			// end-to-end: real goroutines, a remote that stops reading (see e2e.go)
+			cfg.magnet, cfg.badInfo, cfg.fast = false, false, true
+			cfg.ps, cfg.np, cfg.last = 65536, 24, 65536
+			cfg.e2e = 14
+		}
 		if i == 5 || i == c.N/2 {
 			// one burst with the metadata unknown (distinct Haves), one with it known
 			cfg.burst = 2200
@@ -1122,6 +1258,9 @@ func (w *world) replayOps(lines []string) {
 				w.applyPev(pe, "pev")
 				w.pumpPending()
 			}
+		case "e2e":
+			n, _ := strconv.Atoi(f[1])
+			w.e2e(n)
 		case "tick":
 			w.tick()
 			w.pumpPending()
